@@ -33,7 +33,13 @@ def hashHandler : Handler
         else match sel.find? (fun (_, _, h) => h != h0) with
           | some (kind, _, h) => throw s!"presentation {kind} has a different HashValue ({h}) than the canonical one ({h0})"
           | none => if b.isEmpty && h0 != "0" then throw s!"the empty schema has HashValue {h0}" else pure () : Check)
-    let same := sameOver (ps.filter (fun (k, _, _) => k != "detour"))
+    let same := sameOver (ps.filter (fun (k, _, _) => k != "detour" && k != "table-level-pk"))
+    -- the primary key's two representations hash differently (recorded finding pk-inline-vs-table-level)
+    let tlpk := ps.filter (fun (k, _, _) => k == "table-level-pk")
+    let sameTlpk := sameOver tlpk
+    let tlpkRegion := match region with
+      | some r => some r
+      | none => if tlpk.isEmpty then none else some "pk-inline-vs-table-level"
     -- the detour presentation uses DROP statements: outside the reader vocabulary of the postgres / sqlite glue
     let detours := ps.filter (fun (k, _, _) => k == "detour")
     let detourRegion := match region, detours with
@@ -49,8 +55,13 @@ def hashHandler : Handler
       | h0 :: _ => match es.find? (fun (_, _, h) => h == h0) with
         | some (kind, _, _) => throw s!"edit {kind} leaves the HashValue unchanged ({h0})"
         | none => pure ()
+    -- the model reads the canonical statements: the table-level presentation is judged by the property only
+    let corr := (ps ++ es).foldl (fun v (kind, ss, h) =>
+      if kind == "table-level-pk" then v else
+      let gg := if kind == "case-option" then { g with lower := !g.lower } else g
+      v.and (expectOutcome s!"hash-{kind}" (modelHash gg ss) h)) okV
     some (corr.and ((judge "C07" region same).and ((judge "C07" (detourRegion.map (· ++ "/detour")) sameDetour).and
-      (judge "C07" (region.map (· ++ "/edits")) differs))))
+      ((judge "C07" (region.map (· ++ "/edits")) differs).and (judge "C07" tlpkRegion sameTlpk)))))
   | _ => none
 
 end Sqlize.Driver
